@@ -5,7 +5,6 @@ import (
 	"strings"
 
 	"pgregory.net/rapid"
-
 )
 
 // ---- l-values ---------------------------------------------------------------------
@@ -115,13 +114,15 @@ func (g *gen) stmtLet(nested bool) {
 	case g.chance("typed", 40):
 		if t.k == kScalar && t.sc != "bool" && g.chance("absInit", 30) {
 			g.line("let %s: %s = %s;", name, t, g.scalarLit(t.sc, true))
+			e.konst = true
 		} else {
 			g.line("let %s: %s = %s;", name, t, e.s)
 		}
 	default:
 		g.line("let %s = %s;", name, e.s)
 	}
-	g.declare(&binding{name: name, t: t, kind: "let"})
+	// naga folds constants through `let`, so constness is tracked through it
+	g.declare(&binding{name: name, t: t, kind: "let", konst: e.konst})
 }
 
 func (g *gen) stmtVar(nested bool) {
@@ -168,6 +169,7 @@ func (g *gen) stmtConst() {
 		g.line("const %s = %s;", name, g.constValue(t, 0))
 	}
 	g.feat("local-const")
+	g.constDecl[name] = true
 	g.declare(&binding{name: name, t: t, kind: "const", konst: true})
 }
 
@@ -183,6 +185,9 @@ func (g *gen) stmtAssign() bool {
 	}
 	t := lv.t
 	form := g.pick("assignForm", 10)
+	if (strings.HasPrefix(lv.s, "*arg") || (strings.HasPrefix(lv.s, "(*arg") && strings.HasSuffix(lv.s, ")"))) && excluded("c09-compound-assign-through-pointer-param") {
+		form = 0 // C09-9: `*p op= e` / `(*p)++` on a pointer parameter omits the Load
+	}
 	switch {
 	case form <= 4:
 		rhs := g.genExpr(t, g.exprDepth()).s
@@ -719,6 +724,7 @@ func (g *gen) genGlobals(hasCompute bool) {
 			g.line("const %s = %s;", name, g.constValue(t, 0))
 		}
 		g.feat("module-const")
+		g.constDecl[name] = true
 		g.globals = append(g.globals, &binding{name: name, t: t, kind: "global", konst: true})
 	}
 	// uniform
@@ -1121,7 +1127,7 @@ type program struct {
 
 // genProgram draws one WGSL module.
 func genProgram(t *rapid.T) program {
-	g := &gen{t: t, features: map[string]bool{}}
+	g := &gen{t: t, features: map[string]bool{}, constDecl: map[string]bool{}}
 	g.maxDepth = g.intn("maxExprDepth", 2, 4)
 	stages := g.intn("stages", 0, 3) // 0: vertex+fragment, 1: compute, 2: all three, 3: fragment only
 	hasCompute := stages == 1 || stages == 2
